@@ -37,9 +37,11 @@ def run(chk, facts_by_config):
                     'core integer semantics as modelled in analysis/ops.py', 'purity of CPU value intrinsics',
                     'constructors / Clone / From are the only ways to obtain an instance (C12 K: clones are field-wise)']
     reviewed = load_reviewed()
-    res = ctor.run_all(facts_by_config, lens=ctor.lens_for_tier(chk.tier))
+    res = ctor.run_all(facts_by_config, lens=ctor.lens_for_tier(chk.tier), cfg_filter=True)
     import c18, canary
     for cfgname, F in facts_by_config.items():
+        if cfgname not in ctor.BASE_CONFIGS:
+            continue          # canaries and the BelT wide block do not depend on cfg flags
         canary.report(chk, cfgname, F.mono)
         for fname in ('belt_wblock_enc', 'belt_wblock_dec'):
             if 'verif_root__belt_block__free__' + fname not in F.mono.roots:
